@@ -128,7 +128,7 @@ def model_info(name):
     except ValueError:                       # role pattern outside the restricted class: no correspondence
         inf.wm = None
     base = [':ARG0', ':ARG1', ':op1', ':op2', ':op10', ':mod', ':domain', ':quant', ':polarity',
-            ':consist-of', ':accompanier']
+            ':consist-of', ':accompanier', ':ARG2-OF', ':Part-Of']
     inf.roles = [r for r in base if edge_role_ok(tbl, r)]
     inf.inv_roles = [r + '-of' for r in inf.roles[:4]]
     # the table reading of invertedness must be the implementation's (else the oracle would be about another model)
